@@ -25,11 +25,17 @@ def run(ctx):
     drv = core.Driver()
     pending = []
     ndefs, npts = (14, 3) if ctx.quick else (150, 8)
+    previous = None
     for i in range(ndefs):
         transcend = i % 5 == 4
         ns = ctx.rng.choice([1, 2, 3, 4])
         d = gen.gen_definition(ctx.rng, n_state=ns, n_calib=ctx.rng.choice([0, 1, 2]), n_sensors=ctx.rng.choice([1, 2]),
                                transcend=transcend)
+        if transcend:
+            gen.force_inverse_composition(ctx.rng, d)       # asin(sin u) etc.: derivative is not 1 off the principal branch
+        if i == 2:
+            d = gen.many_temporaries_definition(ctx.rng, n=7)   # Jacobian blocks with more than ten CSE temporaries
+            ns = 7
         # force a sensor whose number of readings differs from the number of states
         k0 = next(iter(d.sensors))
         while len(d.sensors[k0]) == ns or (ns + len(d.calibration) == len(d.sensors[k0])):
@@ -47,6 +53,27 @@ def run(ctx):
         Ls, Lc, Lk = eh.names_of(d)
         um = {s.name: e for s, e in d.state_model.items()}
         rational = eh.is_rational(d)
+        # a filter built EARLIER in this process still answers for its own sensors after this one was built (same sensor keys)
+        if previous is not None:
+            pekf, pd, ppt, pLs = previous
+            psub = eh.subs_map(pd, ppt)
+            pst = eh.state_obj(pekf, ppt)
+            for key, rd in pd.sensors.items():
+                Lr = sorted(rd)
+                case = {"def": pd.describe(), "point": eh.point_json(ppt), "which": f"sensor:{key}", "after_building": d.describe()}
+                ctx.case(case, True); ctx.count("earlier_filter_revisited")
+                try:
+                    with fk.quiet():
+                        got = np.asarray(pekf.sensor_jacobian(key, pst), dtype=float)
+                    want = eh.oracle_jac(rd, Lr, pLs, psub)
+                except Exception as e:
+                    ctx.fail(f"jacobian-raises:sensor:{fk.exc_kind(e)}:earlier-filter", f"sensor Jacobian of a filter built earlier raises {e!r}"[:300], case)
+                    continue
+                if got.shape != (len(Lr), len(pLs)) or not eh.mat_close(got, want):
+                    ctx.fail("jacobian-entry:sensor:earlier-filter", f"{key}: the sensor Jacobian of a filter built earlier in the process changed after another "
+                             f"filter was built: got {got.tolist()}, want {[[float(x) for x in r] for r in want]}", case)
+        if not transcend:
+            previous = (ekf, d, dict(pts[0], cal=cal), Ls)
         # consecutive evaluation points on the same filter that differ in ONE coordinate only (values -1, -2, 1, 2)
         from fractions import Fraction as _F
         base = dict(pts[0])
@@ -57,10 +84,16 @@ def run(ctx):
                     q = {"dt": base["dt"], "cal": cal, "state": dict(base["state"]), "control": dict(base["control"])}
                     q[grp][nme] = _F(val)
                     sweep.append(q)
-        for pt in pts + sweep:
+        # an evaluation point handed over as an INTEGER array (from_data only looks at the shape): the same point as with floats
+        ipt = {"dt": pts[0]["dt"], "cal": cal, "control": dict(pts[0]["control"]), "int_array_state": True,
+               "state": {nme: _F(ctx.rng.randint(-3, 3)) for nme in Ls}}
+        for pt in pts + sweep + [ipt]:
             pt = dict(pt, cal=cal)
             sub = eh.subs_map(d, pt)
             st, ct = eh.state_obj(ekf, pt), eh.control_obj(ekf, pt)
+            if pt.get("int_array_state"):
+                st = ekf.State.from_data(np.array([[int(pt["state"][nme])] for nme in Ls], dtype=np.int64))
+                ctx.count("integer_array_state")
             jobs = [("process", lambda: ekf.process_jacobian(float(pt["dt"]), st, ct), lambda: eh.oracle_jac(um, Ls, Ls, sub), (len(Ls), len(Ls))),
                     ("control", lambda: ekf.control_jacobian(float(pt["dt"]), st, ct), lambda: eh.oracle_jac(um, Ls, Lc, sub), (len(Ls), len(Lc)))]
             for key, rd in d.sensors.items():
